@@ -36,6 +36,9 @@ import hashlib
 import os
 import re
 
+import shutil
+import subprocess
+
 import rewrite
 from rustlex import AnchorLost, find_closure, find_fn, find_loops, find_type_item, mask, match_close
 
@@ -79,6 +82,57 @@ def _parse_sub(arg):
         rep = ''
     return {'pat': m.group(1), 'rep': rep, 'min': int(m.group(3) or 1), 'count': int(m.group(4) or 0)}
 
+
+
+_FMT_CACHE = {}
+FMT_NOTES = []   # files that could not be put into canonical layout (reported in the evidence)
+
+
+def canonical_source(path):
+    """The text of a source file of the checked tree in CANONICAL LAYOUT: `rustfmt --edition 2021` with rustfmt's
+    default configuration, whatever layout the file has on disk.  Layout (line breaks, indentation, trailing commas)
+    is the one thing the extraction deliberately drops: anchors and substitutions are regular expressions over text,
+    and a tree that differs from another only in layout must get the same verdict.  rustfmt does not change tokens
+    other than optional trailing commas / redundant braces it is documented to normalise; if it is missing or
+    refuses the file (e.g. a syntax error in the tree under check), the text is used as it is on disk."""
+    raw = open(path).read()
+    if os.environ.get('VERIF_NO_FMT') or not path.endswith('.rs'):
+        return raw
+    key = hashlib.sha256(raw.encode()).hexdigest()
+    if key in _FMT_CACHE:
+        return _FMT_CACHE[key]
+    cdir = os.path.join(os.path.dirname(os.path.dirname(os.path.abspath(__file__))), '.cache', 'fmt')
+    cfile = os.path.join(cdir, key + '.rs')
+    out = None
+    if os.path.exists(cfile):
+        try:
+            out = open(cfile).read()
+        except OSError:
+            out = None
+    if out is None:
+        exe = shutil.which('rustfmt')
+        if exe:
+            try:
+                r = subprocess.run([exe, '--edition', '2021', '--emit', 'stdout', '--config', 'max_width=100'],
+                                   input=raw, stdout=subprocess.PIPE, stderr=subprocess.PIPE, text=True, timeout=60,
+                                   cwd='/')
+                if r.returncode == 0 and r.stdout.strip():
+                    out = r.stdout
+            except (OSError, subprocess.SubprocessError):
+                out = None
+        if out is None:
+            FMT_NOTES.append(path)
+            out = raw
+        else:
+            try:
+                os.makedirs(cdir, exist_ok=True)
+                tmp = cfile + '.%d' % os.getpid()
+                open(tmp, 'w').write(out)
+                os.replace(tmp, cfile)
+            except OSError:
+                pass
+    _FMT_CACHE[key] = out
+    return out
 
 class Unit:
     def __init__(self, path, repo):
@@ -175,7 +229,7 @@ class Unit:
             arg = arg[1:-1]
         src_path = os.path.join(self.repo, relpath)
         try:
-            src = open(src_path).read()
+            src = canonical_source(src_path)
         except OSError:
             raise AnchorLost('file %s missing' % relpath)
         rules, presubs, subs = [], [], []
